@@ -385,6 +385,8 @@ def run(repo: Repo, rep: Report, tier: str) -> None:
     from ..core.report import Only
     from . import c15 as _c15
     _c15._aliases(repo, Only(rep, {"R15.7"}))
+    from ..core import helper_contracts as _hc
+    _hc.report(repo, rep, "R17.7", _hc.type_name_identifier_contract(repo), "mashumaro.core.meta.code.builder::CodeBuilder.get_type_name_identifier")
 
 def _skel(it) -> str:
     return " | ".join(l.tmpl.skeleton() for l in it.lines)
@@ -407,3 +409,6 @@ def _site_of_name(it, r: Rendered, nm: str) -> str:
 _ADDENDUM = ' R17.6: add_type_modules receives the final, substituted type on every path of Registry.get. Borrowed: R15.7 (aliases of nested classes are module-qualified).'
 EXPLANATION += _ADDENDUM
 LEVEL_TEXT += _ADDENDUM
+_ADD2 = ' R17.7: contract of get_type_name_identifier (local types are bound by identity under a sanitised name, others referred to by dotted name).'
+EXPLANATION += _ADD2
+LEVEL_TEXT += _ADD2
